@@ -1,6 +1,6 @@
 """Property -> rules table."""
 
-from .rules import inplace, maps, exponent
+from .rules import inplace, maps, exponent, decomp, threads
 
 COMMON_ASSUMPTIONS = [
     "the repository's own source is what runs: no monkey-patching, setattr tricks or user code outside /repo",
@@ -10,6 +10,32 @@ COMMON_ASSUMPTIONS = [
 ]
 
 REGISTRY = {
+    "C16": {
+        "rules": [threads.rule_kernel_template, threads.rule_pool_discipline, threads.rule_divisor_nonzero,
+                  threads.rule_stride_siblings],
+        "explanation": (
+            "static (template conformance + sign/zero abstract interpretation + sibling comparison): decides "
+            "the shapes from which schedule independence follows — every block kernel partitions its own size "
+            "with its own parameters, iterates only its own blocks, writes only at the block index; the "
+            "partition helper never divides by zero; the pool submits exactly one task per rank and observes "
+            "worker failures; strided kernels and their launchers agree. Does NOT decide the tiling identity "
+            "stop(b) == start(b+1) (arithmetic) nor numerical equality with serial numpy."
+        ),
+        "assumptions": COMMON_ASSUMPTIONS + ["numba-compiled kernels are analysed as Python source; only sign/zero facts are used, which numba's typing does not change"],
+    },
+    "C05": {
+        "rules": [decomp.rule_absorb_tables, decomp.rule_cutoff_tables, decomp.rule_guard_agree,
+                  decomp.rule_clamp, decomp.rule_use_or_reject, decomp.rule_split_flags],
+        "explanation": (
+            "static (constant evaluation of the module-level tables + decision-table extraction + sibling "
+            "comparison): decides that the absorb / cutoff-mode vocabularies are decoded identically by the "
+            "generic and numba implementations and by the isometry-flag parser, that all truncation sentinels "
+            "follow one convention, that the kept rank is clamped to [1, cap], that accepted options are read, "
+            "and that tensor_split flags isometries exactly as the parser says. Does NOT decide reconstruction "
+            "exactness, optimality, the reported error, or numerical isometry."
+        ),
+        "assumptions": COMMON_ASSUMPTIONS,
+    },
     "C01": {
         "rules": [exponent.rule_exp_drop, exponent.rule_exp_flow, exponent.rule_exp_combine, exponent.rule_linop],
         "explanation": (
@@ -49,6 +75,8 @@ REGISTRY = {
 
 
 TECHNIQUE = {
+    "C16": "static analysis: kernel-template conformance and write-disjointness rules, sign/zero abstract interpretation of the partition helper, future-observation rule, strided-sibling comparison",
+    "C05": "static analysis: constant evaluation of registries, decision-table extraction and generic/numba sibling comparison, sentinel-convention and option use-or-reject rules",
     "C01": "static analysis: def-use flag closure (network / extracted-tensors / exponent-read) per evaluator + constructor-forwarding and sibling rules on TNLinearOperator",
     "C02": "static analysis: who-may-write scan with local alias tracking + structural pairing/ordering rules on the owner methods",
     "C03": "static analysis: interprocedural alias/effect analysis under inplace=True/False contexts; alias-table and array-write rules",
